@@ -91,13 +91,48 @@ pub fn rand_ukey(rng: &mut Rng) -> String {
     if rng.chance(1, 2) { rng.pick(&["ca", "nu", "hc", "co", "kn", "fw", "1a"]).to_string() } else { format!("{}{}", word(rng, ALNUM, 1, 1), word(rng, ALPHA, 1, 1)) }
 }
 pub fn rand_utype(rng: &mut Rng) -> String {
-    if rng.chance(1, 12) { "true".into() } else if rng.chance(1, 3) { rng.pick(&["buddhist", "h12", "h23", "latn", "arab", "phonebk", "islamic", "civil"]).to_string() } else { word(rng, ALNUM, 3, 8) }
+    if rng.chance(1, 12) { "true".into() } else if rng.chance(1, 25) { rng.pick(&["truex", "TrueType", "truely", "tru", "true1", "xtrue"]).to_string() } else if rng.chance(1, 3) { rng.pick(&["buddhist", "h12", "h23", "latn", "arab", "phonebk", "islamic", "civil"]).to_string() } else { word(rng, ALNUM, 3, 8) }
 }
 pub fn rand_tkey(rng: &mut Rng) -> String { format!("{}{}", word(rng, ALPHA, 1, 1), word(rng, DIGIT, 1, 1)) }
 pub fn rand_tvalue(rng: &mut Rng) -> String {
-    if rng.chance(1, 12) { "true".into() } else if rng.chance(1, 3) { rng.pick(&["hybrid", "ungegn", "names", "prprname", "2007", "bgn"]).to_string() } else { word(rng, ALNUM, 3, 8) }
+    if rng.chance(1, 12) { "true".into() } else if rng.chance(1, 25) { rng.pick(&["truex", "TrueType", "truely", "tru", "true1", "xtrue"]).to_string() } else if rng.chance(1, 3) { rng.pick(&["hybrid", "ungegn", "names", "prprname", "2007", "bgn"]).to_string() } else { word(rng, ALNUM, 3, 8) }
 }
 pub fn rand_priv(rng: &mut Rng) -> String { word(rng, ALNUM, 1, 8) }
+/// private-use tags with numeric and digit-led shapes ("9", "10", "1a"): orderings other than bytewise show up here
+pub fn rand_priv_num(rng: &mut Rng) -> String {
+    match rng.below(4) {
+        0 => word(rng, DIGIT, 1, 3),
+        1 => format!("{}{}", word(rng, DIGIT, 1, 2), word(rng, ALPHA, 1, 2)),
+        _ => rand_priv(rng),
+    }
+}
+/// 8-letter languages sharing a 7-letter stem (the widest packed representation)
+pub fn rand_lang8(rng: &mut Rng) -> String {
+    format!("{}{}", rng.pick(&["abcdefg", "zzzzzzz", "english", "aaaaaaa"]), word(rng, ALPHA, 1, 1))
+}
+/// a copy of `toks` with one character of one token replaced by another of the same class
+pub fn tweak(rng: &mut Rng, toks: &[String]) -> Vec<String> {
+    let mut t: Vec<String> = toks.to_vec();
+    if t.is_empty() { return t; }
+    let i = rng.below(t.len());
+    let mut b = t[i].clone().into_bytes();
+    if b.is_empty() { return t; }
+    let j = if rng.chance(1, 2) { b.len() - 1 } else { rng.below(b.len()) };
+    b[j] = if b[j].is_ascii_digit() { *rng.pick(DIGIT) } else if b[j].is_ascii_uppercase() { rng.pick(ALPHA).to_ascii_uppercase() } else { *rng.pick(ALPHA) };
+    t[i] = String::from_utf8(b).unwrap_or_default();
+    t
+}
+/// language identifiers that differ in one character (or not at all)
+pub fn near_langid_pair(rng: &mut Rng) -> (Vec<String>, Vec<String>) {
+    let mut a = vec![if rng.chance(1, 2) { rand_lang8(rng) } else { rand_lang(rng) }];
+    if rng.chance(1, 2) { a.push(rand_script(rng)); }
+    if rng.chance(1, 2) { a.push(rand_region(rng)); }
+    for _ in 0..rng.below(3) { a.push(rand_variant(rng)); }
+    let mut b = tweak(rng, &a);
+    if rng.chance(1, 3) { b = tweak(rng, &b); }
+    if rng.chance(1, 4) && b.len() > 1 { let k = 1 + rng.below(b.len() - 1); b.remove(k); }
+    (a, b)
+}
 
 /// random well-formed language identifier as a token list
 pub fn wf_langid_tokens(rng: &mut Rng) -> Vec<String> {
@@ -150,6 +185,45 @@ pub fn wf_locale_tokens(rng: &mut Rng) -> Vec<String> {
     if rng.chance(1, 4) {
         t.push("x".into());
         for _ in 0..(1 + rng.below(3)) { t.push(rand_priv(rng)); }
+    }
+    t
+}
+
+/// long well-formed locale (about 60-250 subtags): many variants, attributes, keywords, fields, private tags
+pub fn wf_long_locale_tokens(rng: &mut Rng) -> Vec<String> {
+    let mut t = vec![rand_lang(rng)];
+    if rng.chance(1, 2) { t.push(rand_script(rng)); }
+    if rng.chance(1, 2) { t.push(rand_region(rng)); }
+    for _ in 0..(4 + rng.below(30)) { t.push(rand_variant(rng)); }
+    let mut u: Vec<String> = vec!["u".into()];
+    for _ in 0..(3 + rng.below(25)) { u.push(rand_attr(rng)); }
+    let mut keys: Vec<String> = vec![];
+    for _ in 0..(3 + rng.below(20)) {
+        let k = rand_ukey(rng);
+        if keys.contains(&k.to_lowercase()) { continue; }
+        keys.push(k.to_lowercase());
+        u.push(k);
+        for _ in 0..rng.below(5) { u.push(rand_utype(rng)); }
+    }
+    let mut tr: Vec<String> = vec!["t".into()];
+    if rng.chance(2, 3) {
+        let mut tl = wf_langid_tokens(rng);
+        if tl[0] == "und" && tl.len() == 1 { tl[0] = "en".into(); }
+        for _ in 0..rng.below(12) { tl.push(rand_variant(rng)); }
+        tr.extend(tl);
+    }
+    let mut keys: Vec<String> = vec![];
+    for _ in 0..(2 + rng.below(14)) {
+        let k = rand_tkey(rng);
+        if keys.contains(&k) { continue; }
+        keys.push(k.clone());
+        tr.push(k);
+        for _ in 0..(1 + rng.below(4)) { tr.push(rand_tvalue(rng)); }
+    }
+    match rng.below(4) { 0 => { t.extend(u); t.extend(tr); } 1 => { t.extend(tr); t.extend(u); } 2 => { t.extend(u); } _ => { t.extend(tr); } }
+    if rng.chance(2, 3) {
+        t.push("x".into());
+        for _ in 0..(2 + rng.below(40)) { t.push(rand_priv_num(rng)); }
     }
     t
 }
